@@ -535,3 +535,235 @@ Example C10_helper_ok_examples :
               exists c, get 7 (calls st) = Some c /\ g_rets c = [0; 0; 0; 0; 0; 1; 1]) /\
   helper_ok 7 TOpen false misuse_labels = false.
 Proof. exact helper_ok_examples. Qed.
+
+(* ================================================================ strengthening V10
+
+   (A) THE RELAY TIMER PROTOCOL IS REGENERATED.  The relay decides the race between a call's
+   timeout and the frame that finishes it with one bit, the result of relayTimer.Stop.  Until now
+   relay_timer_pool.go was modelled by hand only (timer_stop / timer_release / timer_new /
+   ITimerRun of Model/RelayItems.v).  Gen/GenC10Timer.v holds Stop, OnTimer, Release, Start, the
+   recycled branch of the pool's Get, verifyNotReleased and markTimerInactive regenerated from the
+   source as functions of the three flags (active, stopped, released), the trigger parameters and
+   the answers of the runtime timer (Stop() / Reset() = "was pending"); a Go panic is None.
+   Model/C10Timer.v is the single-timer hand model; Proofs/C10TimerP.v.
+
+   (B) EVERY REFUSING BRANCH OF handleCallReq RETURNS.  Gen/GenC10Admit.v holds the whole function
+   as a trace of responder actions (1 error frame "closed channel", 2 mex.shutdown, 3 dispatch to a
+   handler goroutine, 4 protocol error) plus its result; Model/C10Admit.v; Proofs/C10AdmitP.v. *)
+From Verif Require Import Gen.GenC10Timer Model.C10Timer Proofs.C10TimerP Gen.GenC10Admit Model.C10Admit Proofs.C10AdmitP.
+
+(* ---- (A) *)
+
+(* regenerated = hand model, for all values of the flags and of the runtime timer's answers *)
+Theorem C10_timer_generated :
+  (forall t, match tstep_stop t with
+             | GoPanic c => c = panic_released /\ gen_stop t = None
+             | GoOk (t', b) => exists io, gen_stop t = Some (b, (flags_of t', io))
+             end) /\
+  (forall t, match tstep_ontimer t with
+             | GoPanic c => c = panic_released /\ gen_ontimer t = None
+             | GoOk (t', (k, o)) =>
+                 exists io, gen_ontimer t = Some ((flags_of t', io), (false, (key_id k, o))) /\ k = tm_key t
+             end) /\
+  (forall t, match tstep_release t with
+             | GoPanic c => gen_release t = None /\
+                            (c = panic_released /\ c10TimerVerifyNotReleased (tm_released t) = None \/
+                             c = panic_release_active /\ c10TimerVerifyNotReleased (tm_released t) = Some tt)
+             | GoOk t' => exists io, gen_release t = Some (flags_of t', io)
+             end) /\
+  (forall t recycled k orig,
+             match tstep_start t recycled k orig with
+             | GoPanic _ => gen_start t recycled k orig = None
+             | GoOk t' => gen_start t recycled k orig = Some (flags_of t', (key_id k, orig)) /\ tm_key t' = k /\ tm_orig t' = orig
+             end).
+Proof. exact (conj gen_stop_tie (conj gen_ontimer_tie (conj gen_release_tie gen_start_tie))). Qed.
+Print Assumptions C10_timer_generated.
+
+(* the relay model performs exactly these steps on the timer it looks up *)
+Theorem C10_timer_model_steps :
+  (forall st tm t, lookup Z.eqb tm (timers st) = Some t ->
+     match tstep_stop t with
+     | GoPanic c => timer_stop st tm = (set_panic st c, false)
+     | GoOk (t', b) =>
+         snd (timer_stop st tm) = b /\
+         lookup Z.eqb tm (timers (fst (timer_stop st tm))) = Some t' /\
+         (forall tm', tm' <> tm -> lookup Z.eqb tm' (timers (fst (timer_stop st tm))) = lookup Z.eqb tm' (timers st)) /\
+         panicked (fst (timer_stop st tm)) = panicked st /\ items (fst (timer_stop st tm)) = items st /\
+         threads (fst (timer_stop st tm)) = threads st /\ RelayItems.sent (fst (timer_stop st tm)) = RelayItems.sent st
+     end) /\
+  (forall cf st tm t room, lookup Z.eqb tm (timers st) = Some t ->
+     exec cf st (ITimerRun tm) room =
+     match tstep_ontimer t with
+     | GoPanic c => (set_panic st c, [])
+     | GoOk (t', (k, o)) => (set_timers st (insert Z.eqb tm t' (timers st)), [IEntomb k (FromTimeout o)])
+     end) /\
+  (forall st tm t, lookup Z.eqb tm (timers st) = Some t ->
+     timer_release st tm =
+     match tstep_release t with
+     | GoPanic c => set_panic st c
+     | GoOk t' => set_timers st (insert Z.eqb tm t' (timers st))
+     end) /\
+  (forall st k orig, exists t', tstep_start fresh_timer false k orig = GoOk t' /\
+     timer_new st k orig = (set_next_tm (set_timers st (insert Z.eqb (next_tm st) t' (timers st))) (next_tm st + 1), next_tm st)) /\
+  (forall t k orig, tm_active t = false -> tm_armed t = false ->
+     tstep_start t true k orig = tstep_start fresh_timer false k orig).
+Proof. exact (conj model_stop_step (conj model_ontimer_step (conj model_release_step (conj model_start_step start_recycled_same)))). Qed.
+Print Assumptions C10_timer_model_steps.
+
+(* THE CONTRACT OF Stop, about the regenerated code: Stop panics exactly on a released timer;
+   otherwise it returns true IFF the timer had already been stopped or this call prevented the
+   callback (the runtime timer was still pending); a true result leaves the timer stopped (and
+   inactive when this call stopped it), a false result changes no flag. *)
+Theorem C10_timer_stop_contract : forall a s r id o pending,
+  (r = true -> c10TimerStop a s r id o pending = None) /\
+  (r = false -> exists a' s' io,
+     c10TimerStop a s r id o pending = Some (s || pending, ((a', s', r), io)) /\
+     (s || pending = true -> s' = true) /\
+     (s = false -> pending = true -> a' = false) /\
+     (s || pending = false -> a' = a /\ s' = s)).
+Proof. exact gen_stop_contract. Qed.
+Print Assumptions C10_timer_stop_contract.
+
+(* ... the callback marks the timer inactive before it calls the timeout handler with the
+   parameters it read before; Start makes every timer (also a recycled, formerly stopped one)
+   active and not stopped; Release refuses active and released timers *)
+Theorem C10_timer_other_contracts :
+  (forall a s id o, exists io, c10TimerOnTimer a s false id o = Some (((false, s, false), io), (false, (id, o)))) /\
+  (forall s id0 o0 id o,
+     c10TimerStart false s (c10TimerPoolGet true true) id0 o0 id o false = Some ((true, false, false), (id, o)) /\
+     c10TimerStart false s false id0 o0 id o false = Some ((true, false, false), (id, o))) /\
+  (forall a s r id o, c10TimerRelease a s r id o = if r || a then None else Some ((false, s, true), (id, o))).
+Proof. exact (conj gen_ontimer_contract (conj gen_start_contract gen_release_contract)). Qed.
+Print Assumptions C10_timer_other_contracts.
+
+(* THE FIRED TIMER WINS.  In every reachable state of a fresh-id run: once the runtime has started
+   OnTimer for the timer of a live item -- before AND after the callback marked the timer inactive,
+   until the timeout handler has executed its Entomb -- a lookup that stops the timer answers
+   stopped = false and changes nothing; a frame that finishes the call is then swallowed (nothing
+   enqueued, no callback).  With C10_relay_timeout: the caller gets the timeout error frame only. *)
+Theorem C10_fired_timer_wins : forall cf ls st, run_fresh cf init ls = Some st ->
+  forall t it code, lookup key_eqb t (items st) = Some it ->
+    In (TT (it_tm it), code) (threads st) -> timeout_pending code (it_tm it) t ->
+    items_get st t true = (st, Some (it, false)).
+Proof. exact fired_timer_wins. Qed.
+Print Assumptions C10_fired_timer_wins.
+
+Theorem C10_finishing_frame_swallowed :
+  (forall cf st r rk it room, fin_of (r_f r) = true ->
+     exec cf st (IRcvChk r rk (Some (it, false))) room = (st, after_sent r)) /\
+  (forall cf st k f ft own it room, fin_of f = true ->
+     exec cf st (INcChk k f ft own (Some (it, false))) room = (st, [])).
+Proof. exact (conj finishing_frame_swallowed finishing_frame_swallowed_noncall). Qed.
+Print Assumptions C10_finishing_frame_swallowed.
+
+(* Non-vacuity: the request is relayed, the originating timer fires, its callback marks the timer
+   inactive, the destination's final response is looked up in that window: stopped = false although
+   the timer is inactive; the run ends with exactly the timeout error frame on the caller's wire. *)
+Example C10_fired_timer_example :
+  exists st it x, run_fresh c10t_cf init c10t_run = Some st /\
+    lookup key_eqb (0, 0, 7) (items st) = Some it /\ it_tomb it = false /\
+    lookup Z.eqb (it_tm it) (timers st) = Some x /\ tm_active x = false /\ tm_stopped x = false /\
+    In (TT (it_tm it), [IEntomb (0, 0, 7) (FromTimeout true)]) (threads st) /\
+    items_get st (0, 0, 7) true = (st, Some (it, false)) /\
+    exists st', run_fresh c10t_cf st c10t_rest = Some st' /\ threads st' = [] /\
+      wire_of 0 7 (RelayItems.sent st') = [Err].
+Proof.
+  eexists. eexists. eexists. split; [vm_compute; reflexivity|]. split; [vm_compute; reflexivity|].
+  split; [reflexivity|]. split; [vm_compute; reflexivity|]. split; [reflexivity|]. split; [reflexivity|].
+  split; [vm_compute; right; left; reflexivity|]. split; [vm_compute; reflexivity|].
+  eexists. split; [vm_compute; reflexivity|]. split; vm_compute; reflexivity.
+Qed.
+
+(* ---- (B) *)
+
+Theorem C10_call_req_generated : forall st1 p m st2 tr,
+  c10HandleCallReq st1 p m st2 tr = admit_model st1 p m st2 tr.
+Proof. exact gen_admit_tie. Qed.
+Print Assumptions C10_call_req_generated.
+
+(* About the regenerated function: on every path at most one responder action (error frame,
+   protocol error, dispatch to a handler); the dispatch is the ONLY action of the one path on which
+   both state reads saw an active connection and parsing and registration succeeded; a path that
+   releases the frame (result true: every refusing path) never dispatches; mex.shutdown only right
+   after the declining error frame. *)
+Theorem C10_call_req_one_responder : forall st1 p m st2 tr0 tr r,
+  c10HandleCallReq st1 p m st2 tr0 = Some (tr, r) ->
+  exists w, tr = tr0 ++ w /\
+    (length (filter is_responder w) <= 1)%nat /\
+    (In 3 w -> w = [3] /\ r = false /\ st1 = c_connectionActive /\ p = true /\ m = true /\ st2 = c_connectionActive) /\
+    (In 2 w -> w = [1; 2] /\ r = true) /\
+    (r = true -> ~ In 3 w).
+Proof. exact gen_admit_one_responder. Qed.
+Print Assumptions C10_call_req_one_responder.
+
+(* the reader of the server model takes exactly the branches the regenerated function names *)
+Theorem C10_reader_follows_generated :
+  (forall st id full, rd_pc st = RIdle ->
+     RespWire.step st (RdCallReq1 id full) =
+     match c10HandleCallReq (cstate_go (cst st)) true true c_connectionActive [] with
+     | Some ([3], false) => Some (set_rd (add_requested st id) (RChecked id))
+     | Some ([1], true) => Some (fst (conn_send_syserr (add_requested st id) id full))
+     | _ => None
+     end) /\
+  (forall st id ok full, rd_pc st = RChecked id ->
+     RespWire.step st (RdCallReq2 ok full) =
+     match c10HandleCallReq c_connectionActive ok (negb (mex_refuses st id)) c_connectionActive [] with
+     | Some ([], true) => Some (set_rd st RIdle)
+     | Some ([4], true) => Some (set_rd (fst (conn_send_syserr st id full)) RProto1)
+     | Some ([3], false) => Some (set_rd (set_calls st (put id new_call (calls st))) (RAdded id))
+     | _ => None
+     end) /\
+  (forall st id full, rd_pc st = RAdded id ->
+     RespWire.step st (RdCallReq3 full) =
+     with_call st id (fun c =>
+       match c10HandleCallReq c_connectionActive true true (cstate_go (cst st)) [] with
+       | Some ([3], false) => Some (set_rd (commit st id (upd_pc c PNotStarted) false) RIdle)
+       | Some ([1; 2], true) =>
+           let st1 := fst (conn_send_syserr st id full) in
+           let '(c1, chk) := shut_call c in
+           Some (set_rd (commit st1 id (upd_pc c1 PDead) chk) RIdle)
+       | _ => None
+       end)).
+Proof. exact (conj reader_req1_generated (conj reader_req2_generated reader_req3_generated)). Qed.
+Print Assumptions C10_reader_follows_generated.
+
+(* The call declined by the re-check (Close raced with its admission, the connection is draining
+   because other calls are in flight) has no handler -- its program counter is PDead, at which no
+   handler action is enabled -- and, inside the quantifier, its frames are for ever exactly the one
+   error frame of the decline, whatever the rest of the run does. *)
+Theorem C10_declined_call_dead :
+  (forall st id full st', rd_pc st = RAdded id -> cst st <> CActive ->
+     RespWire.step st (RdCallReq3 full) = Some st' ->
+     exists c', get id (calls st') = Some c' /\ h_pc c' = PDead) /\
+  (forall st id c l, get id (calls st) = Some c -> h_pc c = PDead ->
+     handler_label_of id l = true -> RespWire.step st l = None).
+Proof. exact (conj decline_step_dead dead_call_no_handler_step). Qed.
+Print Assumptions C10_declined_call_dead.
+
+Theorem C10_declined_exactly_one_err : forall prop ls1 st1 id ls2 st,
+  RespWire.run prop ls1 = Some st1 -> rd_pc st1 = RAdded id ->
+  cst st1 = CStartClose \/ cst st1 = CInboundClosed ->
+  RespWire.run prop (ls1 ++ RdCallReq3 false :: ls2) = Some st ->
+  (req_count id (ls1 ++ RdCallReq3 false :: ls2) <= 1)%nat ->
+  handler_ok id false (ls1 ++ RdCallReq3 false :: ls2) = true ->
+    proj id (RespWire.sent st) = proj id (RespWire.sent st1) ++ [Err] /\
+    filter terminal (proj id (RespWire.sent st)) = [Err].
+Proof. exact declined_exactly_one_err. Qed.
+Print Assumptions C10_declined_exactly_one_err.
+
+(* Non-vacuity: call 5 is in flight (its handler runs), call 7 is registered, Close lands, the
+   re-check declines 7, call 5 then answers with a system error: one error frame each. *)
+Example C10_declined_example :
+  let ls1 := [RdCallReq1 5 false; RdCallReq2 true false; RdCallReq3 false; HStart 5 true;
+              RdCallReq1 7 false; RdCallReq2 true false; CClose] in
+  let ls2 := [HResp 5; HSysErr 5 false] in
+  exists st1 st, RespWire.run false ls1 = Some st1 /\ rd_pc st1 = RAdded 7 /\ cst st1 = CStartClose /\
+    RespWire.run false (ls1 ++ RdCallReq3 false :: ls2) = Some st /\
+    (req_count 7 (ls1 ++ RdCallReq3 false :: ls2) <= 1)%nat /\
+    handler_ok 7 false (ls1 ++ RdCallReq3 false :: ls2) = true /\
+    proj 7 (RespWire.sent st) = [Err] /\ proj 5 (RespWire.sent st) = [Err] /\ cst st = CClosed.
+Proof.
+  cbn zeta. eexists. eexists. split; [vm_compute; reflexivity|]. split; [reflexivity|]. split; [reflexivity|].
+  split; [vm_compute; reflexivity|]. split; [vm_compute; apply le_n|]. split; [vm_compute; reflexivity|].
+  split; [vm_compute; reflexivity|]. split; vm_compute; reflexivity.
+Qed.
